@@ -418,9 +418,19 @@ def walk_dollar_expansion(buff, pos, end, endchar, disable_quote=False):
     if pos == "$":
         return pos + 1
     while pos < end and buff[pos] != "}":
-        if buff[pos] == "$":
-            # disable_quote?
-            pos = walk_dollar_expansion(buff, pos + 1, end, endchar)
+        ch = buff[pos]
+        if ch == "$":
+            pos = walk_dollar_expansion(
+                buff, pos + 1, end, endchar, disable_quote=disable_quote
+            )
+        elif ch == "\\":
+            pos += 2
+        elif ch == '"':
+            # a quoted string inside the expansion; it may hold a closing brace
+            pos = walk_command_escaped_parsing(buff, pos + 1, '"') + 1
+        elif ch == "'":
+            # bash pairs single quotes here even between double quotes
+            pos = walk_statement_no_parsing(buff, pos + 1, "'") + 1
         else:
             pos += 1
     return pos + 1
